@@ -2308,6 +2308,19 @@ def c10_step(model, meta):
                 problems.append(f"{a} of the other function changed")
         if inp != st["input"]:
             problems.append("the caller's dict was modified")
+        # the representation invariant on the real object's state (what the next calls rely on)
+        kn, cn = wn.reminder_keys.get(sh.NAME, {}), wn.cache.get(sh.NAME, {})
+        for key, idx in kn.items():
+            if key not in cn or not idx:
+                problems.append(f"reminder_keys keeps an entry for {key!r} which is not a cached device (or an empty one)")
+            for rk in idx:
+                if rk[0] != key:
+                    problems.append(f"offset {rk} is indexed under device {key!r}: it is deleted when {key!r} disappears")
+                if rk not in rn:
+                    problems.append(f"indexed offset {rk} does not exist: removing device {key!r} will raise KeyError")
+        for rk, v in rn.items():
+            if v != 0 and rk not in kn.get(rk[0], ()):
+                problems.append(f"offset {rk}={v} is not indexed: it survives the device's disappearance")
         # a second call with the same snapshot must work on the state left behind (invariant) and change nothing
         try:
             again = wn.run(dict(st["input"]), sh.NAME)
